@@ -146,6 +146,18 @@ class Ctx:
     def vec(self, name, n=3):
         return np.array([self.real(f"{name}{'xyzwuv'[k] if n <= 6 else k}") for k in range(n)], dtype=object if self.symbolic else float)
 
+    def vec_from(self, name, sampler, n=3):
+        """A free symbolic vector (constrained by the `assume`s that follow) in symbolic mode; in the bounded
+        tier drawn by `sampler(rng)`, which is written to satisfy those assumptions (uniform draws never hit
+        equality-like preconditions: 'within tolerance of', 'perpendicular to').  Recorded and replayable."""
+        if self.symbolic:
+            return self.vec(name, n)
+        names = [f"{name}{'xyzwuv'[k] if n <= 6 else k}" for k in range(n)]
+        if not (all(k in self.drawn for k in names) or all(k in self.inputs for k in names) or self._given):
+            for k, v in zip(names, sampler(self.rng)):
+                self.drawn[k] = float(v)
+        return self.vec(name, n)
+
     def mat(self, name, rows, n=3):
         return np.array([[self.real(f"{name}{i}{'xyz'[k]}") for k in range(n)] for i in range(rows)],
                         dtype=object if self.symbolic else float)
